@@ -65,6 +65,36 @@ def main():
                                       "input": {"w": np.asarray(w).tolist()[:50], "ess": ess, "bins": bins},
                                       "note": "found by the bounded native contract search"}))
                     return
+    # the trimming contract at the place users meet it: successive posterior() calls on ONE sampler with different trimming
+    # parameters; every call must deliver the ESS fraction requested in *that* call
+    try:
+        import tempest, tempfile, os, shutil, warnings
+        warnings.simplefilter("ignore")
+        tmpd = tempfile.mkdtemp(prefix="c20_")
+        cwd = os.getcwd()
+        os.chdir(tmpd)
+        try:
+            s_ = tempest.Sampler(lambda u: 10 * u - 5, lambda x: -0.5 * float(np.sum((x - 1.0) ** 2) / 0.3), n_dim=2, n_particles=64, random_state=2, output_dir=tmpd)
+            s_.run(n_total=256, progress=False)
+            lw_all = s_.posterior(trim_importance_weights=False, return_logw=True)[-1]
+            w_all = np.exp(lw_all - lw_all.max())
+            ess_all = ess_of(w_all / w_all.sum())
+            for seq in ((0.99, 0.9999, 0.5), (0.5, 0.999), (0.9999, 0.9)):
+                for et in seq:
+                    tried += 1
+                    out = s_.posterior(ess_trim=et, bins_trim=1000)
+                    wts = np.asarray(out[1])
+                    ratio = ess_of(wts / wts.sum()) / ess_all
+                    if ratio < et - 1e-9:
+                        print(json.dumps({"reproduced": True, "tried": tried, "detail": f"posterior(ess_trim={et}) after the calls {seq[:seq.index(et)]} on the same sampler kept "
+                                          f"{len(wts)} samples with ESS fraction {ratio:.6f} < the requested {et}", "input": {"sequence": list(seq), "ess_trim": et}}))
+                        return
+        finally:
+            os.chdir(cwd)
+            shutil.rmtree(tmpd, ignore_errors=True)
+    except Exception as e:
+        print(json.dumps({"reproduced": True, "tried": tried, "detail": f"posterior() with trimming parameters raised {type(e).__name__}: {e}", "input": {"probe": "posterior sequence"}}))
+        return
     print(json.dumps({"reproduced": False, "tried": tried, "detail": "native contract held on all tried inputs"}))
 
 
